@@ -39,6 +39,10 @@ template<class F> static void one_arg(F x, bool vec)
 	if (!std::isfinite(x)) return; i128 r = rank(x), M = maxrank<F>();
 	if (r < M) { F n = glm::nextFloat(x); if (!(std::isfinite(n) && rank(n) == r + 1)) tfail("nextFloat", r < 0 ? "negative" : (r == 0 ? "zero" : "positive"), fin(x), "rank " + s128(r + 1), fin(n)); }
 	if (r > -M) { F p = glm::prevFloat(x); if (!(std::isfinite(p) && rank(p) == r - 1)) tfail("prevFloat", r < 0 ? "negative" : (r == 0 ? "zero" : "positive"), fin(x), "rank " + s128(r - 1), fin(p)); }
+	// the GLM_GTC_ulp spelling (separate bodies in gtc/ulp.inl)
+	if (r < M) { F n = glm::next_float(x); if (!(std::isfinite(n) && rank(n) == r + 1)) tfail("next_float(gtc)", r < 0 ? "negative" : (r == 0 ? "zero" : "positive"), fin(x), "rank " + s128(r + 1), fin(n)); }
+	if (r > -M) { F p = glm::prev_float(x); if (!(std::isfinite(p) && rank(p) == r - 1)) tfail("prev_float(gtc)", r < 0 ? "negative" : (r == 0 ? "zero" : "positive"), fin(x), "rank " + s128(r - 1), fin(p));
+		else { auto dg = glm::float_distance(x, p); if ((i128)dg != 1) tfail("float_distance(gtc)", (r > 0 && r - 1 < 0) || r == 0 ? "across zero" : "same sign", fin(x) + " , prev_float(x)", "1", str((long long)dg)); } }
 	if (vec) {
 		glm::vec<3, F> v((F)1, x, (F)-2);
 		if (r < M && bits(glm::nextFloat(v).y) != bits(glm::nextFloat(x))) tfail("nextFloat", "vector overload differs from scalar", fin(x), "", "");
